@@ -133,6 +133,12 @@ class C03(Suite):
                 for t in tags:
                     if rng.random() < 0.5:
                         t["len"] = 1      # scalars matter there (main.py picks the initial value's Python type)
+                # names configured at one explicit address are one Attribute: they must agree in type and length
+                first = {}
+                for t in tags:
+                    if t.get("addr"):
+                        o = first.setdefault(tuple(t["addr"]), t)
+                        t["type"], t["len"] = o["type"], o["len"]
             yield c
 
     def model_line(self, c):
